@@ -66,7 +66,7 @@ def check(ctx):
 
         o = ctx.ob(f'{n}_dates_encode_reservations', 'R8',
                    f"{n}: computed start/end are day + booked share of that day (same resource/day/selector as the reservations)", floor=2)
-        ctx.guarded(o, lambda o, ps=ps: sched_fill.encoding(ctx, o, ps))
+        ctx.guarded(o, lambda o, ps=ps: sched_fill.encoding(ctx, o, ps, strict_zero=False))
 
     # what is reserved is measured against the capacity the resource reports: it must be the calendar's answer for the date asked,
     # not a remembered one (C17's obligation, reused as in C08/C09)
@@ -172,6 +172,22 @@ def remaining(ctx, o, ps: PassShape):
                     o.undecided(ps.f, st, st, f"task.{attr} is rewritten between the hoisted `is None` test and the default fill")
                     continue
                 tn = ps.cfg.node_containing(tests[0]) if tests else None
+                if tn is not None and not ps.cfg.dominates(tn, cn):
+                    # `if is_leaf: if x is None: x = default` - the None test sits inside a leaf / milestone classification that does
+                    # not enclose the fill call: for the tasks the fill is reached with (leaf, not a milestone) it is always passed
+                    chain = [n_ for n_ in walk_no_nested(ps.f.node) if isinstance(n_, ast.If) and any(x is tests[0] for x in ast.walk(n_))
+                             and not any(x is c for x in ast.walk(n_))]
+                    chain.sort(key=lambda n_: -sum(1 for _ in ast.walk(n_)))        # outermost first
+                    own_if = [n_ for n_ in chain if any(x is tests[0] for x in ast.walk(n_.test))]
+                    outer = [n_ for n_ in chain if n_ not in own_if]
+                    ok_chain = bool(chain) and ps.cfg.node_of(chain[0]) is not None and ps.cfg.dominates(ps.cfg.node_of(chain[0]), cn)
+                    for n_ in outer:
+                        rg = ps.region_of_conds([(n_.test, True)])
+                        if rg['other'] or rg['is_none'] or (rg['leaf'] is None and rg['milestone'] is None):
+                            ok_chain = False
+                    if ok_chain:
+                        o.site(ps.f, st, f"{attr} defaults to {unmangle(want)} when None (inside the leaf branch)")
+                        continue
                 if tn is None or not ps.cfg.dominates(tn, cn):
                     o.refute(ps.f, st, st, f"the default {attr} is not filled in before the remaining work is computed")
                 else:
